@@ -1,5 +1,6 @@
 """C01 -- a grid sweep evaluates every combination exactly once, in its own slot."""
 import json
+import os
 import shutil
 
 from harness import core
@@ -8,6 +9,8 @@ from harness.props import sweepcheck as S
 
 PROP_FILE = "Props/C01.v"
 TRUSTED = [
+    "translator gen_runner.py also pins the prologue of combo_runner_core and check_for_duplicates / parse_combos "
+    "(membership by equality, every argument) to their transcriptions (C01_duplicates_rejected)",
     "Coq 8.16.1 kernel (coqc, full .vo build); vm_compute for the non-vacuity Examples and case evaluation",
     "hand model Model/Runner.v, Grid.v, Perm.v = transcription of combo_runner_core/_unflatten (modelled, tied by "
     "differential execution, not by translation); GenRunner bridge ties the shuffle / un-shuffle / info wiring",
@@ -56,6 +59,93 @@ def exhaustive_small(rng):
     return out
 
 
+DUP_PAIRS = [(1, 1), (2.5, 2.5), ("x", "x"), (1, 1.0), (0, False), (1, True), (2, 2.0), (0.0, False), (True, 1.0)]
+
+
+def duplicates_stream(c, tmp, n):
+    """Grids in which one argument has two EQUAL values (spelled identically or equal across numeric types):
+    must be refused before anything runs, through every entry point."""
+    import xyzpy
+    from xyzpy.utils import XYZError
+    pairs, metas = [], []
+    for k in range(n):
+        rng = c.rng
+        nargs = rng.randint(1, 3)
+        names = rng.sample(["a", "b", "z", "q"], nargs)
+        which = rng.randrange(nargs)
+        dup = rng.choice(DUP_PAIRS)
+        combos, ranks = [], []
+        for j, a in enumerate(names):
+            if j == which:
+                others = [v for v in (7, 8.5, "y", 11) if isinstance(v, str) == isinstance(dup[0], str)
+                          or not isinstance(dup[0], str)]
+                vals = [dup[0]] + rng.sample(others, rng.randint(0, min(2, len(others)))) + [dup[1]]
+                if rng.random() < 0.5:
+                    vals = vals[1:-1] + [dup[0], dup[1]] if len(vals) > 2 else vals
+            else:
+                vals = [10 * (j + 1) + t for t in range(rng.randint(1, 3))]
+            combos.append((a, vals))
+            rk = []
+            for v in vals:            # equal values get equal integers
+                for t, w in enumerate(vals):
+                    if w == v:
+                        rk.append(t)
+                        break
+            ranks.append(rk)
+        api = rng.choice(["combo_runner", "combo_runner_to_ds", "Runner.run_combos", "Crop.sow_combos", "Harvester"])
+        calls = []
+
+        def fn(**kw):
+            calls.append(kw)
+            return 1.0
+        d = os.path.join(tmp, f"dup{k}")
+        os.makedirs(d, exist_ok=True)
+        err = None
+        try:
+            spelled = dict(combos) if rng.random() < 0.5 else tuple(combos)
+            if api == "combo_runner":
+                xyzpy.combo_runner(fn, spelled, verbosity=0, shuffle=rng.choice([False, True]))
+            elif api == "combo_runner_to_ds":
+                xyzpy.combo_runner_to_ds(fn, spelled, "out", verbosity=0)
+            elif api == "Runner.run_combos":
+                xyzpy.Runner(fn, "out", fn_args=tuple(names)).run_combos(spelled, verbosity=0)
+            elif api == "Harvester":
+                xyzpy.Harvester(xyzpy.Runner(fn, "out", fn_args=tuple(names)),
+                                data_name=os.path.join(d, "data")).harvest_combos(spelled, verbosity=0)
+            else:
+                from xyzpy.gen.cropping import Crop
+                Crop(fn=fn, name="dup", parent_dir=d).sow_combos(spelled, verbosity=0)
+        except XYZError as e:
+            err = "XYZError"
+        except Exception as e:  # noqa
+            err = f"{type(e).__name__}: {str(e)[:120]}"
+        sown = []
+        for root, _, fs in os.walk(d):
+            sown += [f for f in fs if f.startswith("xyz-batch-")]
+        shutil.rmtree(d, ignore_errors=True)
+        rep = {"stream": "duplicate-values", "api": api, "combos": [[a, [repr(v) for v in vs]] for a, vs in combos],
+               "error": err, "calls": len(calls), "batch_files": len(sown)}
+        c.case(json.dumps(rep, sort_keys=True), nontrivial=True, sample=rep if k % 10 == 0 else None)
+        c.count("stream", "duplicate-values"); c.count("dup_api", api); c.count("dup_pair", repr(dup))
+        if err != "XYZError":
+            c.violation("duplicate-values-not-refused",
+                        f"a grid with the equal values {dup[0]!r} and {dup[1]!r} for one argument was "
+                        f"{'accepted' if err is None else 'answered with ' + err} (results are keyed by value: the two "
+                        "combinations share one slot)", rep)
+        elif calls or sown:
+            c.violation("duplicate-values-refused-too-late",
+                        f"{len(calls)} calls / {len(sown)} batch files before the refusal", rep)
+        cmb = "[" + "; ".join(core.zlist(r) for r in ranks) + "]"
+        inp = f"(mk_input false [] [] {core.zlist(list(range(nargs)))} {cmb} [] false false None)"
+        pairs.append((f"run_checked_core 0 {inp}", ["rejected", []] if err == "XYZError" and not calls else ["accepted", []]))
+        metas.append(rep)
+    bad, _ = core.safe_run_cases(c, "Prelude Grid Perm Runner RunnerInst", pairs, chunk=150)
+    for i in bad:
+        c.obligation_broken("correspondence Model/Runner.v (checked_core) vs parse_combos",
+                            {"case": metas[i], "model_expr": pairs[i][0]})
+    return len(bad)
+
+
 def run(tier, seed):
     c = core.Check("C01", tier, seed)
     gen_st = core.regen()
@@ -73,13 +163,15 @@ def run(tier, seed):
         nbad = S.run_stream(c, sweeps, tmp, "grid")
         if tier == "thorough" or c.broken:
             nbad += S.run_stream(c, exhaustive_small(c.rng), tmp, "grid-exhaustive-small")
+        nbad += duplicates_stream(c, tmp, 40 if tier == "quick" and not c.broken else 300)
         c.cov["disagreements_checked"] = nbad
     finally:
         R.shutdown_loky()
         shutil.rmtree(tmp, ignore_errors=True)
     c.assumptions = ["constant names are disjoint from swept names (a constant silently overrides a swept value "
                      "otherwise; outside the property's quantifier)",
-                     "swept values of one argument are mutually distinct (parse_combos rejects duplicates)"]
+                     "swept values of one argument are mutually distinct; grids violating this are refused by "
+                     "parse_combos before anything runs (C01_duplicates_rejected + the duplicate-values stream)"]
     return c.finish(b, PROP_FILE, TRUSTED, RULE)
 
 
